@@ -2,7 +2,6 @@ package jsonapi
 
 import (
 	"encoding/json"
-	"fmt"
 	"reflect"
 	"sort"
 )
@@ -322,11 +321,9 @@ func Equal(r1, r2 Resource) bool {
 	for i, attr1 := range r1Attrs {
 		attr2 := r2Attrs[i]
 		if !reflect.DeepEqual(r1.Get(attr1.Name), r2.Get(attr2.Name)) {
-			// TODO Fix the following condition one day. Basically, all
-			// nils (nil pointer, nil slice, etc) should be considered
-			// equal to a nil empty interface.
-			if fmt.Sprintf("%v", r1.Get(attr1.Name)) == "<nil>" &&
-				fmt.Sprintf("%v", r2.Get(attr1.Name)) == "<nil>" {
+			// A nil pointer and a nil empty interface are
+			// considered equal.
+			if isNilValue(r1.Get(attr1.Name)) && isNilValue(r2.Get(attr2.Name)) {
 				continue
 			}
 
@@ -383,6 +380,17 @@ func Equal(r1, r2 Resource) bool {
 	}
 
 	return true
+}
+
+// isNilValue reports whether v is a nil empty interface or a nil pointer.
+func isNilValue(v any) bool {
+	if v == nil {
+		return true
+	}
+
+	val := reflect.ValueOf(v)
+
+	return val.Kind() == reflect.Ptr && val.IsNil()
 }
 
 // EqualStrict is like Equal, but it also considers IDs.
